@@ -143,6 +143,14 @@ pub fn execute(plan: &Plan, ctx: &mut Ctx) {
         }
     }
     let nt = terms.len();
+    if plan.prop == "C16" {
+        for spec in &specs {
+            if let DevSpec::Axle(n) = spec {
+                ctx.cell("C16.axle", &[*n as i64]);
+                ctx.count("reach.axle_constructed");
+            }
+        }
+    }
     let mut model: Vec<TM> = vec![TM { own_s: None, own_c: None, partner: None }; nt];
     let mut snaps: Vec<TSnap> = terms.iter().map(|t| snap_term(t)).collect();
     let mut twins: BTreeMap<usize, PidTwin> = BTreeMap::new();
@@ -498,6 +506,7 @@ fn check_terminal_reads(ctx: &mut Ctx, i: usize, code: &str, k: usize, model: &[
         None => (None, None),
     };
     // state read
+    ctx.cell("C16.terminal", &[own_s.is_some() as i64, p_s.is_some() as i64, model[k].partner.is_some() as i64]);
     let got = rd_state(&snaps[k].rd_s);
     match (own_s, p_s) {
         (None, None) => {
